@@ -8,7 +8,7 @@
 //!       calls 0 record_success(arg ns), 1 record_failure, 3 limit()
 //!   3 Vegas: initial min max alpha beta;
 //!       calls 0 record_success(arg ns), 1 record_failure, 3 limit()
-//!   trace = per entry [op (0 skipped,1 load,2 store,3 cas,4 rmw), return value of the call
+//!   trace = return values of the prelude calls, then per entry [op (0 skipped,1 load,2 store,3 cas,4 rmw), return value of the call
 //!           completed by this operation or -1, limit()], per worker [atomic steps, return values
 //!           (updates 2, limit() the value)], [limit()]
 //! kind 4 (AdaptiveService<_, Aimd> over a gated inner service, hand-polled futures):
@@ -219,10 +219,9 @@ fn run_object<O: Sync>(
     limit: &dyn Fn(&O) -> i128,
 ) -> Vec<i128> {
     let (pre, progs, sched) = parse_threads(s, 8);
-    for c in &pre {
-        call(obj, *c);
-    }
-    let (mut tr, results, steps) = run_threads(obj, &progs, &sched, call, &|o: &O| vec![limit(o)]);
+    let mut tr: Vec<i128> = pre.iter().map(|c| call(obj, *c)).collect();
+    let (entries, results, steps) = run_threads(obj, &progs, &sched, call, &|o: &O| vec![limit(o)]);
+    tr.extend(entries);
     for (i, rs) in results.iter().enumerate() {
         tr.push(steps[i]);
         tr.extend(rs);
